@@ -157,6 +157,10 @@ class SkBaseTransformLearner(SkBaseTransform):
 
         @param      values      parameters
         """
+        kwargs = {k: values.pop(k) for k in list(values) if k in self.P.Keys}
+        if kwargs:
+            # parameters given as **kwargs to the constructor
+            super().set_params(**kwargs)
         if "model" in values:
             self.model = values["model"]
             del values["model"]
